@@ -100,9 +100,13 @@ def _walk_level(stmts):
             if isinstance(c, skip): continue
             todo.append(c)
 
-def _certainly_leaves(block):
-    if not block or not isinstance(block[-1], (ast.Break, ast.Return, ast.Raise)): return False
-    return not any(isinstance(n, ast.Continue) for n in _walk_level(block))
+def _certainly_leaves(block, own=True):
+    """every path that enters `block` leaves the loop of interest.  own=True: `block` is at the level of that loop (break leaves it,
+    continue does not); own=False: `block` is inside a nested loop (only return/raise leave the outer loop; the nested loop's own
+    break/continue do not)"""
+    if not block: return False
+    if own: return isinstance(block[-1], (ast.Break, ast.Return, ast.Raise)) and not any(isinstance(n, ast.Continue) for n in _walk_level(block))
+    return isinstance(block[-1], (ast.Return, ast.Raise)) and not any(isinstance(n, (ast.Continue, ast.Break)) for n in _walk_level(block))
 
 def _all_assigned(node, names, muts):
     for n in ast.walk(node):
@@ -124,22 +128,24 @@ def _call_effect(st, muts):
         if "logger" in chain or not isinstance(root, ast.Name): return
         muts.add(root.id)
 
-def _nl_assigned(block, names=None, muts=None):
-    """names / containers possibly written on a path through `block` that ends the iteration WITHOUT leaving the loop"""
+def _nl_assigned(block, names=None, muts=None, own=True):
+    """names / containers possibly written on a path through `block` that ends the iteration WITHOUT leaving the loop of interest"""
     names = set() if names is None else names; muts = set() if muts is None else muts
-    if _certainly_leaves(block): return names, muts
+    if _certainly_leaves(block, own): return names, muts
     for st in block:
         if isinstance(st, ast.If):
             for n in ast.walk(st.test):
                 if isinstance(n, ast.NamedExpr): _tnames(n.target, names, muts)
-            _nl_assigned(st.body, names, muts); _nl_assigned(st.orelse, names, muts)
-        elif isinstance(st, (ast.For, ast.While)): _all_assigned(st, names, muts)
+            _nl_assigned(st.body, names, muts, own); _nl_assigned(st.orelse, names, muts, own)
+        elif isinstance(st, ast.For):
+            _tnames(st.target, names, muts); _nl_assigned(st.body, names, muts, False); _nl_assigned(st.orelse, names, muts, own)
+        elif isinstance(st, ast.While): _nl_assigned(st.body, names, muts, False); _nl_assigned(st.orelse, names, muts, own)
         elif isinstance(st, ast.With):
             for it in st.items:
                 if it.optional_vars is not None: _tnames(it.optional_vars, names, muts)
-            _nl_assigned(st.body, names, muts)
+            _nl_assigned(st.body, names, muts, own)
         elif isinstance(st, ast.Try): _all_assigned(st, names, muts)
-        elif isinstance(st, (ast.Break, ast.Return, ast.Raise)): break            # the rest of the block is dead
+        elif isinstance(st, (ast.Return, ast.Raise)) or (own and isinstance(st, ast.Break)): break            # the rest of the block is dead
         else: _all_assigned(st, names, muts)
     return names, muts
 
@@ -706,12 +712,156 @@ def c_xilinx_bounded(seed=0):
                              evaluations=evals, planted=planted, refused=refused, info=str(bad[:2])[:900])],
                 functions=[], samples=[dict(bounded="completeness cross-check", evaluations=evals, refused=refused)])
 
+# ------------------------------------------------------------------------------------------------------------ Lattice first-fit searches
+def _reqs(pll, nout, terms, extra=()):
+    fin = SymReal(z3.Real("fin")); _assume(fin.t > 0); pll.clkin_freq = fin; terms["fin"] = fin.t
+    reqs = []
+    for n in range(nout):
+        f = SymReal(z3.Real(f"f{n}")); m = SymReal(z3.Real(f"m{n}")); _assume(z3.And(f.t > 0, m.t >= 0))
+        pll.clkouts[n] = (Signal(), f, 0, m) + tuple(extra); reqs.append((f, m)); terms[f"f{n}"] = f.t; terms[f"m{n}"] = m.t
+    pll.nclkouts = nout
+    return fin, reqs
+def _native_call(pll):
+    try: return pll.compute_config()
+    except ValueError: return None
+def _fr(x): return fractions.Fraction(x)
+
+def _ice40_exists(pll, fin, f, m):
+    fin, f, m = _fr(fin), _fr(f), _fr(m); vmin, vmax = _fr(pll.vco_freq_range[0]), _fr(pll.vco_freq_range[1])
+    for divr in range(*pll.divr_range):
+        for divf in range(*pll.divf_range):
+            vco = fin * (divf + 1) / (divr + 1)
+            if not (vmin <= vco <= vmax): continue
+            for divq in range(*pll.divq_range):
+                if abs(vco / 2 ** divq - f) <= f * m: return dict(divr=divr, divf=divf, divq=divq, vco=float(vco))
+    return None
+
+def c_ice40():
+    cls = lattice_ice40.iCE40PLL; label = "iCE40PLL.compute_config"
+    def setup(ctx):
+        pll = cls(); terms = {}
+        fin, reqs = _reqs(pll, 1, terms); f, m = reqs[0]
+        divr = _member_decl("W_divr", pll.divr_range); divf = _member_decl("W_divf", pll.divf_range)
+        qs = list(range(*pll.divq_range)); divq = qs[_pick("W_divq_index", len(qs))]          # rigid, made concrete by case split (2**divq)
+        vco = fin.t * (_r(divf) + 1) / (_r(divr) + 1)                                        # f_vco = f_in*(DIVF+1)/(DIVR+1)
+        _assume(z3.And(vco >= _r(pll.vco_freq_range[0]), vco <= _r(pll.vco_freq_range[1])))
+        _assume(_within(vco / (2 ** divq), f, m))
+        terms.update(W_divr=divr.t, W_divf=divf.t, W_divq=z3.IntVal(divq))
+        return pll, {"divr": dict(witness=lambda vc, L: divr), "divf": dict(witness=lambda vc, L: divf)}, terms
+    def replay(v, planted):
+        fin = float(v["fin"]); f, m = float(v["f0"]), float(v["m0"])
+        if planted: f, m = fin / (int(v["W_divr"]) + 1) * (int(v["W_divf"]) + 1) / 2 ** int(v["W_divq"]), 1e-12
+        pll = cls(); pll.logger.disabled = True; pll.clkin_freq = fin; pll.clkouts[0] = (Signal(), f, 0, m); pll.nclkouts = 1
+        try: cfg = _native_call(pll)
+        except Exception as e: return "crash", f"iCE40PLL clkin={fin!r} out={(f, m)!r}: compute_config raised {type(e).__name__}: {e}"
+        ex = _ice40_exists(pll, fin, f, m)
+        return ("refused-though-a-setting-exists" if cfg is None and ex is not None else "ok",
+                f"iCE40PLL clkin={fin!r} out={(f, m)!r}: compute_config {'raised ValueError' if cfg is None else 'returned'}; independent exact search over the declared ranges: {ex}")
+    out = prove_complete(label, setup, cls.compute_config, ["divr", "divf"], replay=replay)
+    return dict(results=out, functions=[MODP + "lattice_ice40.iCE40PLL.compute_config"], samples=[dict(function="iCE40PLL.compute_config", theorem="ens.complete")])
+
+def _mk_nx():
+    pll = object.__new__(lattice_nx.NXPLL)          # compute_config reads the class range tables, clkin_freq and clkouts only
+    pll.logger = logging.getLogger("NXPLL"); pll.clkouts = {}; pll.nclkouts = 0; pll.clkin_freq = None
+    return pll
+def _nx_exists(pll, fin, outs):
+    fin = _fr(fin); vmin, vmax = _fr(pll.vco_out_freq_range[0]), _fr(pll.vco_out_freq_range[1]); outs = [(_fr(f), _fr(m)) for f, m in outs]
+    for ki in range(*pll.clki_div_range):
+        for kf in range(*pll.clkfb_div_range):
+            vco = fin * kf / ki
+            if not (vmin <= vco <= vmax): continue
+            ds = [_first_member_within(pll.clko_div_range, vco, f, m) for f, m in outs]
+            if all(d is not None for d in ds): return dict(clki_div=ki, clkfb_div=kf, d=[str(d) for d in ds], vco=float(vco))
+    return None
+
+def c_nx(nout):
+    cls = lattice_nx.NXPLL; label = f"NXPLL(nout={nout}).compute_config"
+    def setup(ctx):
+        pll = _mk_nx(); terms = {}
+        fin, reqs = _reqs(pll, nout, terms)
+        ki = _member_decl("W_clki_div", pll.clki_div_range); kf = _member_decl("W_clkfb_div", pll.clkfb_div_range)
+        vco = fin.t * _r(kf) / _r(ki)
+        _assume(z3.And(vco >= _r(pll.vco_out_freq_range[0]), vco <= _r(pll.vco_out_freq_range[1])))
+        terms.update(W_clki_div=ki.t, W_clkfb_div=kf.t); wd = {}
+        for n, (f, m) in enumerate(reqs):
+            d = _member_decl(f"W_d{n}", pll.clko_div_range); _assume(_within(vco / _r(d), f, m)); wd[n] = d; terms[f"W_d{n}"] = d.t
+        return pll, {"clki_div": dict(witness=lambda vc, L: ki), "clkfb_div": dict(witness=lambda vc, L: kf), "d": dict(witness=lambda vc, L: wd[L["n"]])}, terms
+    def replay(v, planted):
+        fin = float(v["fin"]); outs = [(float(v[f"f{n}"]), float(v[f"m{n}"])) for n in range(nout)]
+        if planted: outs = [(fin / int(v["W_clki_div"]) * int(v["W_clkfb_div"]) / int(v[f"W_d{n}"]), 1e-12) for n in range(nout)]
+        pll = _mk_nx(); pll.logger.disabled = True; pll.clkin_freq = fin
+        for n, (f, m) in enumerate(outs): pll.clkouts[n] = (Signal(), f, 0, m)
+        pll.nclkouts = nout
+        try: cfg = _native_call(pll)
+        except Exception as e: return "crash", f"NXPLL clkin={fin!r} outs={outs!r}: compute_config raised {type(e).__name__}: {e}"
+        ex = _nx_exists(pll, fin, outs)
+        return ("refused-though-a-setting-exists" if cfg is None and ex is not None else "ok",
+                f"NXPLL clkin={fin!r} outs={outs!r}: compute_config {'raised ValueError' if cfg is None else 'returned'}; independent exact search over the declared ranges: {ex}")
+    out = prove_complete(label, setup, cls.compute_config, ["clki_div", "clkfb_div", "d"], replay=replay)
+    return dict(results=out, functions=[MODP + "lattice_nx.NXPLL.compute_config"], samples=[dict(function="NXPLL.compute_config", theorem="ens.complete")])
+
+def _ecp5_native(fin, outs):
+    pll = lattice_ecp5.ECP5PLL(); pll.logger.disabled = True; pll.clkin_freq = fin
+    for n, (f, m) in enumerate(outs): pll.clkouts[n] = (Signal(), f, 0, m, True)
+    pll.nclkouts = len(outs)
+    return pll
+def _ecp5_exists(pll, fin, outs, need_feedback_output):
+    """independent exact search: clki_div, clkfb_div, clkofb_div (divider of the output that closes the loop) and output dividers inside the
+    declared ranges, PFD and VCO windows; with `need_feedback_output` (no spare output left) one requested output must have the divider clkofb_div"""
+    fin = _fr(fin); outs = [(_fr(f), _fr(m)) for f, m in outs]
+    pmin, pmax = _fr(pll.pfd_freq_range[0]), _fr(pll.pfd_freq_range[1]); vmin, vmax = _fr(pll.vco_freq_range[0]), _fr(pll.vco_freq_range[1])
+    for ki in range(*pll.clki_div_range):
+        pfd = fin / ki
+        if not (pmin <= pfd <= pmax): continue
+        for kofb in range(*pll.clko_div_range):
+            for kf in range(*pll.clkfb_div_range):
+                vco = pfd * kf * kofb
+                if vco > vmax: break
+                if vco < vmin: continue
+                ds = [_first_member_within(pll.clko_div_range, vco, f, m) for f, m in outs]
+                if any(d is None for d in ds): continue
+                if need_feedback_output:
+                    js = [n for n, (f, m) in enumerate(outs) if abs(vco / kofb - f) <= f * m]
+                    if not js: continue
+                    ds[js[0]] = kofb
+                return dict(clki_div=ki, clkfb_div=kf, clkofb_div=kofb, d=[str(d) for d in ds], vco=float(vco))
+    return None
+
+def c_ecp5(nout):
+    cls = lattice_ecp5.ECP5PLL; label = f"ECP5PLL(nout={nout}).compute_config"
+    assert nout < cls.nclkouts_max                     # a spare output closes the feedback loop (the 4-output case is c_ecp5_full)
+    def setup(ctx):
+        pll = cls(); pll.logger.disabled = True; terms = {}
+        fin, reqs = _reqs(pll, nout, terms, extra=(True,))
+        ki = _member_decl("W_clki_div", pll.clki_div_range); kf = _member_decl("W_clkfb_div", pll.clkfb_div_range); kofb = _member_decl("W_clkofb_div", pll.clko_div_range)
+        pfd = fin.t / _r(ki); vco = pfd * _r(kf) * _r(kofb)
+        _assume(z3.And(pfd >= _r(pll.pfd_freq_range[0]), pfd <= _r(pll.pfd_freq_range[1])))
+        _assume(z3.And(vco >= _r(pll.vco_freq_range[0]), vco <= _r(pll.vco_freq_range[1])))
+        terms.update(W_clki_div=ki.t, W_clkfb_div=kf.t, W_clkofb_div=kofb.t); wd = {}
+        for n, (f, m) in enumerate(reqs):
+            d = _member_decl(f"W_d{n}", pll.clko_div_range); _assume(_within(vco / _r(d), f, m)); wd[n] = d; terms[f"W_d{n}"] = d.t
+        specs = {"clki_div": dict(witness=lambda vc, L: ki), "clkofb_div": dict(witness=lambda vc, L: kofb), "clkfb_div": dict(witness=lambda vc, L: kf), "d": dict(witness=lambda vc, L: wd[L["n"]])}
+        return pll, specs, terms
+    def replay(v, planted):
+        fin = float(v["fin"]); outs = [(float(v[f"f{n}"]), float(v[f"m{n}"])) for n in range(nout)]
+        if planted: outs = [(fin / int(v["W_clki_div"]) * int(v["W_clkfb_div"]) * int(v["W_clkofb_div"]) / int(v[f"W_d{n}"]), 1e-12) for n in range(nout)]
+        pll = _ecp5_native(fin, outs)
+        try: cfg = _native_call(pll)
+        except Exception as e: return "crash", f"ECP5PLL clkin={fin!r} outs={outs!r}: compute_config raised {type(e).__name__}: {e}"
+        ex = _ecp5_exists(pll, fin, outs, False)
+        return ("refused-though-a-setting-exists" if cfg is None and ex is not None else "ok",
+                f"ECP5PLL clkin={fin!r} outs={outs!r}: compute_config {'raised ValueError' if cfg is None else 'returned'}; independent exact search over the declared ranges: {ex}")
+    out = prove_complete(label, setup, cls.compute_config, ["clki_div", "clkofb_div", "clkfb_div", "d"], replay=replay)
+    return dict(results=out, functions=[MODP + "lattice_ecp5.ECP5PLL.compute_config"], samples=[dict(function="ECP5PLL.compute_config", theorem="ens.complete")])
+
 def cases(tier):
     cs = [Case("S7PLL(-1,1).complete", c_xilinx, "S7PLL", -1, 1), Case("S7PLL(-1,2).complete", c_xilinx, "S7PLL", -1, 2),
           Case("S7MMCM(-2,2).complete", c_xilinx, "S7MMCM", -2, 2), Case("S6PLL(-1,2).complete", c_xilinx, "S6PLL", -1, 2),
           Case("USPLL(-1,2).complete", c_xilinx, "USPLL", -1, 2), Case("USMMCM(-2,2).complete", c_xilinx, "USMMCM", -2, 2),
           Case("USPPLL(-1,2).complete", c_xilinx, "USPPLL", -1, 2),
-          Case("Xilinx.complete(bounded)", c_xilinx_bounded)]
+          Case("Xilinx.complete(bounded)", c_xilinx_bounded),
+          Case("iCE40PLL.complete", c_ice40), Case("NXPLL(1).complete", c_nx, 1), Case("NXPLL(2).complete", c_nx, 2),
+          Case("ECP5PLL(1).complete", c_ecp5, 1), Case("ECP5PLL(2).complete", c_ecp5, 2)]
     return cs
 
 ASSUMPTIONS = []
